@@ -1096,7 +1096,13 @@ func ruleIDSources(r *Run) {
 			case "Participant":
 				n++
 				c := r.P.Canon(holder, litField(cl, "ID"))
-				r.Check("D5", fn.Name+":participant-id", strings.HasSuffix(c, ".call:Session.NewParticipantID()") && r.joinSessionCanon(fn) != "" && strings.HasPrefix(c, r.joinSessionCanon(fn)+"."), cl.Pos(), "a new participant gets the next participant id of the session it joins (%s)", c)
+				okSrc := false
+				if call, isCall := ast.Unparen(litField(cl, "ID")).(*ast.CallExpr); isCall {
+					if f, _ := calleeObj(info, call).(*types.Func); f != nil && funcName(f) == "models.(*Session).NewParticipantID" {
+						okSrc = r.isJoinLocalSession(holder, recvExpr(call))
+					}
+				}
+				r.Check("D5", fn.Name+":participant-id", okSrc, cl.Pos(), "a new participant gets the next participant id of the session it joins (%s)", c)
 			case "Entity":
 				n++
 				c := r.P.Canon(holder, litField(cl, "ID"))
